@@ -181,6 +181,10 @@ func (s *snap) walImages() map[string][]walMsg {
 func (s *snap) replayedVs() map[int64]int {
 	out := map[int64]int{}
 	for _, msgs := range s.walImages() {
+		// a file whose status says "replayed" must not be replayed again
+		if len(msgs) > 0 && msgs[0].Kind == "status" && msgs[0].Replay == 2 {
+			continue
+		}
 		for _, tg := range replayable(msgs) {
 			for _, c := range tg.Cmds {
 				if c.RecType == 1 {
@@ -492,6 +496,8 @@ func (m *model) judge(s *snap, r *Recovered) *verdict {
 					if dupEx == "" {
 						dupEx = fmt.Sprintf("%s: record A=%d of write %d appears %d times in %s: its primary write completed %d time(s) before the (last) crash and its transaction is still un-checkpointed in the WAL, so replay appended it again", where, vv, w.ID, n, m.varKey[vv].Key, s.Applied[vv])
 					}
+				} else if contBucket(s, m.varKey[vv].Key) {
+					v.add(&v.C02, "known", "F-CONT", fmt.Sprintf("%s: record A=%d appears %d times in %s, whose file was left with index and data out of step %v", where, vv, n, m.varKey[vv].Key, s.Cont))
 				} else {
 					v.add(&v.C02, "violation", "", fmt.Sprintf("%s: record A=%d appears %d times in %s (applied before crash: %d, in replayable WAL transactions: %d)", where, vv, n, m.varKey[vv].Key, s.Applied[vv], replayed[vv]))
 				}
@@ -536,6 +542,17 @@ func (m *model) judge(s *snap, r *Recovered) *verdict {
 		v.cnt("inflight_requests_checked", 1)
 	}
 	return v
+}
+
+// contBucket: one of the bucket's year files is in the state's list of files whose index and data
+// are out of step.
+func contBucket(s *snap, key string) bool {
+	for _, p := range s.Cont {
+		if strings.HasPrefix(p, key+"/") {
+			return true
+		}
+	}
+	return false
 }
 
 func min1(n int) int {
